@@ -91,6 +91,8 @@ func clusterGen(r *simrt.Rand, tier string, mix []weighted) *hx.Program {
 	// (a full active segment makes leader and follower ping-pong without pause until the next append rolls it:
 	// thousands of steps per simulated instant; small segments are kept rare here, H1 covers segment handling)
 	p.P["seg"] = []int64{1 << 20, 1 << 20, 1 << 20, 1 << 20, 8192}[r.Intn(5)]
+	p.P["timeskip"] = []int64{0, 0, 0, 2}[r.Intn(4)] // per mille of the scheduling steps at which time passes although tasks are runnable
+	p.P["skipmax_ms"] = []int64{50, 500, 2000}[r.Intn(3)]
 	n := 6 + r.Intn(24)
 	if tier == "thorough" {
 		n = 6 + r.Intn(70)
@@ -319,6 +321,7 @@ func runCluster(h *h3, hooks clusterHooks) *cluster {
 	h.waitFor("partition-leader", 30*time.Second, func() bool { return c.leader() != nil })
 
 	sleeps := []time.Duration{20 * time.Millisecond, 200 * time.Millisecond, time.Second, 3 * time.Second, 6 * time.Second}
+	h.s.SetTimeSkips(true) // (if the program asks for them: timers then fire in the middle of the servers' operations)
 	for _, op := range prog.Ops {
 		if h.stop || h.oc.Trouble != "" || len(h.s.Panics) > 0 {
 			break
@@ -482,6 +485,7 @@ func runCluster(h *h3, hooks clusterHooks) *cluster {
 		return c
 	}
 	// faults stop: heal, restart what is down, let the cluster converge
+	h.s.SetTimeSkips(false)
 	h.disarmFSCrashes()
 	h.bus.HealAll()
 	h.cluster.Reevaluate()
